@@ -249,6 +249,7 @@ package optics
 //@   opt overflow=off
 //@   requires self != nil && validloc(rtypeof(S), self.Type.StructField.Offset + self.Type.RootOffs, self.Type.StructField.Name, rtypeof(A))
 //@   panics_when !dynptr(s, S)
+//@   modifies deref(asptr(s, S))
 //@   ensures same_value: result == s
 //@   ensures writes_focus: deref(asptr(s, S)) == fput(old(deref(asptr(s, S))), self.Type.StructField.Offset + self.Type.RootOffs, a)
 
